@@ -43,3 +43,40 @@ Qed.
 Definition pm_eq (l q : list R) : Prop := l = q \/ l = qneg q.
 
 Lemma pm_refl q : pm_eq q q. Proof. left; reflexivity. Qed.
+
+(* ---- square roots of the generated terms ------------------------------------------------
+   innermost first; a radicand without division is decided by ring modulo the unit hypotheses, one with
+   divisions (after the norms have become sa, sm) by field.  Candidates: 1, sa, sm, cd. *)
+Ltac no_sqrt e := lazymatch e with context [sqrt _] => fail | _ => idtac end.
+Ltac no_div e := lazymatch e with context [Rinv _] => fail | context [Rdiv _ _] => fail | _ => idtac end.
+Ltac nonneg := first [lra | repeat apply Rmult_le_pos; lra].
+Ltac sqrt_isr e s :=
+  let H := fresh in
+  assert (H : e = s * s) by (first [ring | hring]);
+  rewrite H; clear H; rewrite (sqrt_square s) by nonneg.
+Ltac sqrt_isf e s :=
+  let H := fresh in
+  assert (H : e = s * s) by (field_simplify_eq; [first [ring | hring]|lra..]);
+  rewrite H; clear H; rewrite (sqrt_square s) by nonneg.
+Ltac root1 sa sm cd :=
+  match goal with
+  | |- context [sqrt ?e] => no_sqrt e;
+      first [ no_div e;
+              first [ lazymatch e with context [sa] => lazymatch e with context [sm] => sqrt_isr e (sa * sm * cd) end end
+                    | lazymatch e with context [sa] => sqrt_isr e sa end
+                    | lazymatch e with context [sm] => sqrt_isr e sm end
+                    | sqrt_isr e 1 | sqrt_isr e cd ]
+            | sqrt_isf e cd | sqrt_isf e 1 ]
+  end.
+Ltac roots sa sm cd := repeat (root1 sa sm cd).
+Ltac gate_ne s := match goal with |- context [Req_EM_T 0 s] => destruct (Req_EM_T 0 s); [lra|] end.
+Ltac gate_pos s := match goal with |- context [Rlt_dec 0 s] => destruct (Rlt_dec 0 s); [|lra] end.
+Ltac fring := first [ring | hring | (field_simplify_eq; [first [ring | hring]|lra..])].
+
+Definition mvec4 (A v : list R) : list R :=
+  [e A 0*e v 0 + e A 1*e v 1 + e A 2*e v 2 + e A 3*e v 3;
+   e A 4*e v 0 + e A 5*e v 1 + e A 6*e v 2 + e A 7*e v 3;
+   e A 8*e v 0 + e A 9*e v 1 + e A 10*e v 2 + e A 11*e v 3;
+   e A 12*e v 0 + e A 13*e v 1 + e A 14*e v 2 + e A 15*e v 3].
+Definition mtr4 (A : list R) : list R :=
+  [e A 0; e A 4; e A 8; e A 12;  e A 1; e A 5; e A 9; e A 13;  e A 2; e A 6; e A 10; e A 14;  e A 3; e A 7; e A 11; e A 15].
